@@ -57,13 +57,15 @@ func (s *grpcServer) GetActionResult(ctx context.Context,
 		return nil, errNilActionDigest
 	}
 
-	if s.mangleACKeys {
-		req.ActionDigest.Hash = cache.TransformActionCacheKey(req.ActionDigest.Hash, req.InstanceName, s.accessLogger)
-	}
-
+	// Validate the hash as sent by the client, before it is possibly
+	// replaced by a (always well formed) instance-specific key.
 	err := s.validateHash(req.ActionDigest.Hash, req.ActionDigest.SizeBytes, logPrefix)
 	if err != nil {
 		return nil, err
+	}
+
+	if s.mangleACKeys {
+		req.ActionDigest.Hash = cache.TransformActionCacheKey(req.ActionDigest.Hash, req.InstanceName, s.accessLogger)
 	}
 
 	// Clients provides hash and size of the Action, but not size of the ActionResult
@@ -233,13 +235,15 @@ func (s *grpcServer) UpdateActionResult(ctx context.Context,
 		return nil, errNilActionDigest
 	}
 
-	if s.mangleACKeys {
-		req.ActionDigest.Hash = cache.TransformActionCacheKey(req.ActionDigest.Hash, req.InstanceName, s.accessLogger)
-	}
-
+	// Validate the hash as sent by the client, before it is possibly
+	// replaced by a (always well formed) instance-specific key.
 	err := s.validateHash(req.ActionDigest.Hash, req.ActionDigest.SizeBytes, logPrefix)
 	if err != nil {
 		return nil, err
+	}
+
+	if s.mangleACKeys {
+		req.ActionDigest.Hash = cache.TransformActionCacheKey(req.ActionDigest.Hash, req.InstanceName, s.accessLogger)
 	}
 
 	// Validate the ActionResult's immediate fields, but don't check for dependent blobs.
